@@ -198,7 +198,7 @@ func encodeRecs(ms ...proto.Message) []byte {
 // for odd states, prefixes and corruptions of snapshot files.
 func TestRoundTripAndHostileLoader(t *testing.T) {
 	run := vf.Cur()
-	sub := run.Sub("round-trip-and-hostile-loader", "generated stores (0..2000 silences with multiple matcher sets, all matcher types, UTF-8 names, annotations, pending/active/expired; log entries with firing/resolved hashes and receiver data of every kind; silences in the old single-matcher-list encoding; states that arrived by gossip with odd content such as a regex that does not compile) -> Snapshot -> fresh instance: every unexpired record equal field by field and equal Mutes verdicts, and a file the writer produced always loads; then every record-boundary prefix, every prefix cutting a record, and random byte corruptions (flip, insert, delete, length-prefix tampering) are presented to the loader under a watchdog: never a panic, and a prefix that cuts a record must be rejected with an error instead of yielding a silently shorter state; non-trivial = store with >=2 records; distinct by (seed, variant)", 40)
+	sub := run.Sub("round-trip-and-hostile-loader", "generated stores (0..2000 silences with multiple matcher sets, all matcher types, UTF-8 names, annotations, pending/active/expired; log entries with firing/resolved hashes and receiver data of every kind; silences in the old single-matcher-list encoding; states that arrived by gossip with odd content such as a regex that does not compile) -> Snapshot -> fresh instance: every unexpired record equal field by field and equal Mutes verdicts, and a file the writer produced always loads (including single records of 30 kB - 600 kB: a log entry for a group of 3000-60000 alerts, a silence with a huge comment and hundreds of matchers); then every record-boundary prefix, every prefix cutting a record, and random byte corruptions (flip, insert, delete, length-prefix tampering) are presented to the loader under a watchdog: never a panic, and a prefix that cuts a record must be rejected with an error instead of yielding a silently shorter state; non-trivial = store with >=2 records; distinct by (seed, variant)", 40)
 	n := run.N(60, 4000)
 	vf.Parallel(t, n, 16, func(t *testing.T, i int) {
 		r := sub.Rand(i)
@@ -317,6 +317,56 @@ func TestRoundTripAndHostileLoader(t *testing.T) {
 			return c, nil
 		})
 		sub.Count("records", int64(2*size+len(extra)))
+		// ---- very large single records (a group with thousands of alerts, a silence with a huge comment
+		// and many matchers): whatever the writer accepts and writes, the loader must read back
+		if i%5 == 0 {
+			big, _, err := newNflog("", nil)
+			if err != nil {
+				t.Fatal(err)
+			}
+			nAlerts := gen.Pick(r, []int{3000, 8000, 20000, 60000})
+			firing := make([]uint64, nAlerts)
+			for k := range firing {
+				firing[k] = uint64(1<<63) + uint64(r.Int63())
+			}
+			gkBig := "{}:{alertname=\"Big\"}"
+			if err := big.Log(rc0, gkBig, firing, []uint64{1, 2, 3}, nil, 0); err != nil {
+				sub.Inconclusive("logging a large entry failed: " + err.Error())
+				return
+			}
+			var bs bytes.Buffer
+			big.Snapshot(&bs)
+			big2, _, err := newNflog("", bs.Bytes())
+			if err != nil {
+				sub.Violation("snapshot-written-by-the-store-rejected-on-load", map[string]any{"component": "nflog", "err": err.Error(), "single_entry_with_firing_alerts": nAlerts, "snapshot_bytes": bs.Len()})
+				return
+			}
+			if a, b := renderNflog(big, []string{gkBig}), renderNflog(big2, []string{gkBig}); a != b {
+				sub.Violation("log-entries-differ-after-snapshot-and-load", map[string]any{"single_entry_with_firing_alerts": nAlerts})
+			}
+			bigS, _, err := newSilences("", nil)
+			if err != nil {
+				t.Fatal(err)
+			}
+			var ms []model.Matcher
+			for k := 0; k < gen.Pick(r, []int{1, 50, 800}); k++ {
+				ms = append(ms, model.Matcher{Name: fmt.Sprintf("l%d", k), Op: "=", Value: strings.Repeat("v", 1+k%30)})
+			}
+			sil := silh.NewSilence("", [][]model.Matcher{ms}, now, now.Add(time.Hour), strings.Repeat("long comment ", gen.Pick(r, []int{1000, 8000, 40000})))
+			if err := bigS.Set(context.Background(), sil); err == nil {
+				var ss bytes.Buffer
+				bigS.Snapshot(&ss)
+				bigS2, _, err := newSilences("", ss.Bytes())
+				if err != nil {
+					sub.Violation("snapshot-written-by-the-store-rejected-on-load", map[string]any{"component": "silences", "err": err.Error(), "snapshot_bytes": ss.Len()})
+					return
+				}
+				if renderSilences(bigS) != renderSilences(bigS2) {
+					sub.Violation("silences-differ-after-snapshot-and-load", map[string]any{"snapshot_bytes": ss.Len()})
+				}
+			}
+			sub.Count("large_records_round_tripped", 2)
+		}
 	})
 }
 
